@@ -53,3 +53,40 @@ Example C13_relabel_example :
   block admA [rB] (map f [0; 1; 2]) (map f [0; 1; 2]) = map (map_out nat nat f) (block admA [rA] [0; 1; 2] [0; 1; 2])
   /\ block admA [rA] [0; 1; 2] [0; 1; 2] <> [].
 Proof. vm_compute. split; [reflexivity|discriminate]. Qed.
+
+(* relabelling / retyping ids by ANY injective map, also one that changes the id order (e.g.
+   integers 9, 10 retyped as strings): for rules symmetric in l and r the same unordered pairs
+   are produced (the orientation may flip) *)
+Theorem C13_id_relabel_unordered :
+  forall (A B : Type) (f : A -> B) (idA : A -> nat) (idB : B -> nat)
+         (rulesA : list (A -> A -> tv)) (rulesB : list (B -> B -> tv)) L l r,
+    rulesA <> [] ->
+    Forall2 (fun ra rb => forall x y, rb (f x) (f y) = ra x y) rulesA rulesB ->
+    (forall rk, In rk rulesA -> forall x y, rk x y = rk y x) ->
+    In l L -> In r L -> idA l <> idA r -> idB (f l) <> idB (f r) ->
+    (((exists n, In (n, (l, r)) (block (adm_lt A idA) rulesA L L)) \/
+      (exists n, In (n, (r, l)) (block (adm_lt A idA) rulesA L L))) <->
+     ((exists n, In (n, (f l, f r)) (block (adm_lt B idB) rulesB (map f L) (map f L))) \/
+      (exists n, In (n, (f r, f l)) (block (adm_lt B idB) rulesB (map f L) (map f L))))).
+Proof. intros. apply relabel_unordered; assumption. Qed.
+Print Assumptions C13_id_relabel_unordered.
+
+(* non-vacuity: ids 9 and 10 relabelled order-reversingly (10 - x); the produced orientation
+   flips, the unordered pair stays *)
+Example C13_relabel_unordered_example :
+  let rA := fun l r : nat => of_bool (Nat.eqb (l + r) 19) in
+  let rB := fun l r : nat => of_bool (Nat.eqb (l + r) 1) in
+  block (adm_lt nat (fun x => x)) [rA] [9; 10] [9; 10] = [(0, (9, 10))] /\
+  block (adm_lt nat (fun x => x)) [rB] (map (fun x => 10 - x) [9; 10]) (map (fun x => 10 - x) [9; 10]) = [(0, (0, 1))].
+Proof. vm_compute. split; reflexivity. Qed.
+
+(* non-vacuity of C13_salting_irrelevant: the same rule salted into 2 and into 3 partitions; both
+   skeletons are accepted by the exhaustive checker *)
+Definition salted_sk (n : nat) : skeleton :=
+  {| sels := map (fun k => {| s_mk := 0; s_kind := SJoin; s_on := BAnd (BAtom 0) (BSalt k n); s_where := BIdLt |}) (seq 1 n);
+     ids_defs := [] |}.
+Example C13_salting_example :
+  forallb salt_free [BAtom 0] = true /\
+  skeleton_ok Dedupe 1 [2] [BAtom 0] (salted_sk 2) = true /\
+  skeleton_ok Dedupe 1 [3] [BAtom 0] (salted_sk 3) = true.
+Proof. vm_compute. repeat split; reflexivity. Qed.
